@@ -1,8 +1,8 @@
 package props
 
 import (
-	"go/types"
 	"go/token"
+	"go/types"
 	"strings"
 
 	"godcheck/core"
